@@ -19,6 +19,9 @@ pub static MPROTECT_FAIL_AT: AtomicI64 = AtomicI64::new(0);
 pub static MPROTECT_CALLS: AtomicI64 = AtomicI64::new(0);
 /// while non-zero: every recorded mprotect whose range covers this page address fails (a page the kernel refuses to make writable)
 pub static MPROTECT_FAIL_PAGE: AtomicI64 = AtomicI64::new(0);
+/// while set: a policy that refuses every request for execute WITHOUT write permission (the unchanged library never makes one:
+/// it asks for read+write+execute and leaves the page so); such a request is logged as `MR addr len` and fails with EACCES
+pub static DENY_RX: AtomicBool = AtomicBool::new(false);
 /// microseconds to sleep inside every recorded __clear_cache / mprotect (C04 slowed-restore probe)
 pub static SLOW_US: AtomicI64 = AtomicI64::new(0);
 
@@ -66,6 +69,11 @@ pub unsafe extern "C" fn munmap(addr: *mut libc::c_void, len: usize) -> i32 {
 }
 #[no_mangle]
 pub unsafe extern "C" fn mprotect(addr: *mut libc::c_void, len: usize, prot: i32) -> i32 {
+    if RECORD.load(SeqCst) && DENY_RX.load(SeqCst) && (prot & libc::PROT_EXEC) != 0 && (prot & libc::PROT_WRITE) == 0 {
+        push(Ev { kind: b'r', a: addr as u64, b: len as u64, ret: -1, n: 0, content: [0; 32], tid: tid() });
+        *libc::__errno_location() = libc::EACCES;
+        return -1;
+    }
     let rec = RECORD.load(SeqCst) && (prot & libc::PROT_EXEC) != 0;
     if !rec {
         // a protection change WITHOUT execute permission: logged apart (kind 'x', never part of the compared trace: the C runtime makes
@@ -119,6 +127,7 @@ pub fn dump(from: usize, to: usize) -> String {
             b'U' => format!("MU {:x} {:x}", e.a, e.b),
             b'P' => format!("MP {:x} {:x} {}", e.a, e.b, if e.ret == 0 { 1 } else { 0 }),
             b'x' => format!("MX {:x} {:x} {:x}", e.a, e.b, e.ret),
+            b'r' => format!("MR {:x} {:x}", e.a, e.b),
             _ => format!("F {:x} {:x} {}", e.a, e.b, hex(&e.content[..e.n as usize])),
         });
     }
